@@ -110,7 +110,7 @@ CHECKS = {
     "C04": dict(
         modules=["AggkitModel.Properties.C04"],
         scenarios=[dict(name="bridgestore"), dict(name="l1infostore"), dict(name="tree"), dict(name="gersync")],
-        generated=["Schema"],
+        generated=["Schema", "SyncFacts"],
         leanchecker=True,
         level_text="Proved in Lean 4: C04_tree_roots — any two well-formed histories (blocks, rollbacks, restarts, reorgs incl. nested/repeated ones and continuations on the new fork) with the same surviving leaves serve the same exit root "
                    "for every deposit count (with C08_appendonly: the same leaves and verifying proofs), i.e. tree queries after a reorg are those of a node that never saw the dropped blocks; C04_tables — after Reorg(b) block and event tables hold exactly the entries of blocks < b; "
@@ -155,7 +155,7 @@ CHECKS = {
     ),
     "C11": dict(
         modules=["AggkitModel.Properties.C11"],
-        scenarios=[dict(name="l1infostore"), dict(name="evmger")],
+        scenarios=[dict(name="l1infostore"), dict(name="evmger"), dict(name="tree")],
         generated=["SyncFacts"],
         leanchecker=True,
         level_text="Proved in Lean 4 (any height, any hash algebra, H.Inj where needed): C11_indices_consecutive — for every mix of events in a block the stored info leaves get consecutive indices in event order and nothing else touches the leaf table; "
@@ -209,7 +209,7 @@ CHECKS = {
     "C03": dict(
         modules=["AggkitModel.Properties.C03"],
         scenarios=[dict(name="aggsender"), dict(name="certcodec"), dict(name="bridgestore"), dict(name="claimtrace")],
-        generated=["CertFacts"],
+        generated=["CertFacts", "SyncFacts"],
         leanchecker=True,
         level_text="Proved in Lean 4. Byte level, for every field value and any 32-byte hash function: C03_exit_leaf — the exit the node builds for a bridge event hashes (BridgeExit.Hash, the Agglayer's side) to exactly the leaf the event has in the L2 exit tree (Bridge.Hash), empty and non-empty metadata alike; C03_exit_fields — every field is carried over unchanged; "
                    "C03_wire_leaf — the leaf recomputed from the submission message equals it; C03_metadata_roundtrip — the metadata of a certificate for blocks [f,t] decodes to that range, creation time and type (ranges narrower than 2^32 blocks). "
@@ -253,7 +253,7 @@ CHECKS = {
     "C10": dict(
         modules=["AggkitModel.Properties.C10"],
         scenarios=[dict(name="certcodec"), dict(name="aggsender")],
-        generated=["CertFacts"],
+        generated=["CertFacts", "SyncFacts"],
         leanchecker=True,
         level_text="Proved in Lean 4 for every certificate (any number of exits and imported exits, any field values) and any collision-free 32-byte hash: C10_pp_sensitive — equal PPHashToSign implies equal new exit root and equal sequence of imported global indexes; C10_fep_sensitive — equal FEPHashToSign implies equal new exit root, height, aggchain params and (global index, exit leaf) sequence; "
                    "C10_exit_sensitive — equal exit leaves imply equal leaf type, token, destination, amount and metadata word; C10_id_sensitive / C10_imp_sensitive — the certificate id covers network, height, both exit roots, every exit leaf and every imported exit (leaf, claim data, global index); hence changing any covered field changes the commitment. "
